@@ -12,6 +12,7 @@ import (
 	"path/filepath"
 	"regexp"
 	"strings"
+	"sync"
 	"time"
 )
 
@@ -98,6 +99,11 @@ func runReplayTest(o *checkOpts, e replayEntry, thorough bool) testRun {
 	return tr
 }
 
+var (
+	familyMu   sync.Mutex
+	familyRuns = map[string]testRun{}
+)
+
 func runReplayFamily(o *checkOpts, prog *Program, r *UnitResult, ob *Obligation) *replayResult {
 	for _, e := range loadReplayIndex() {
 		if e.Kind != "replay" || e.Obligations == "" {
@@ -107,9 +113,24 @@ func runReplayFamily(o *checkOpts, prog *Program, r *UnitResult, ob *Obligation)
 		if err != nil || !re.MatchString(ob.Name) {
 			continue
 		}
-		tr := runReplayTest(o, e, false)
+		familyMu.Lock()
+		tr, ok := familyRuns[e.Name]
+		if !ok {
+			tr = runReplayTest(o, e, false)
+			familyRuns[e.Name] = tr
+		}
+		familyMu.Unlock()
 		confirmed := tr.Failed && strings.Contains(tr.Output, "REPLAY-CONFIRMED")
-		return &replayResult{Family: e.Name, Confirmed: confirmed, Scenario: tr.Summary, Output: tr.Output, Note: tr.Cmd}
+		specific := false
+		summary := tr.Summary
+		for _, l := range strings.Split(tr.Output, "\n") {
+			if strings.Contains(l, "REPLAY-CONFIRMED") && ob.Label != "" && strings.Contains(l, "["+ob.Label+"]") {
+				specific = true
+				summary = strings.TrimSpace(l)
+				break
+			}
+		}
+		return &replayResult{Family: e.Name, Confirmed: confirmed, Specific: specific && confirmed, Scenario: summary, Output: tr.Output, Note: tr.Cmd}
 	}
 	return nil
 }
